@@ -91,7 +91,7 @@ class ManualExecutor(Executor):
         return fut
 
     def shutdown(self, wait=True, **kw):
-        E.emit("DelegateShutdown", s=self.tag, a=1 if wait else 0, c=len(kw))
+        E.emit("DelegateShutdown", s=self.tag, a=1 if wait else 0, b=1 if kw.get("cancel_futures") else 0, c=len(kw))
         self.down = True
 
 
